@@ -52,7 +52,7 @@ def run(ck, ctx):
         if seen_run:
             funcs[fi.qualname] = fi
     ck.info["kernel_closure_functions"] = sorted(funcs)
-    ck.floor("R10.1", len(funcs), 22, "functions in the kernel's closure")
+    ck.floor("R10.1", len(funcs), 15, "functions in the kernel's closure")
     kernel_effects = [e for e in r.effects if "CphotAng.run" in e.funcs()]
     fn = "CphotAng.run (closure)"
 
